@@ -71,6 +71,8 @@ class Result:
         self.inconclusive = []
         self.assumptions = []
         self.exhaustive = None
+        self.shard = None
+        self.nshards = None
         self.notes = []
         self.t0 = time.time()
 
@@ -95,6 +97,8 @@ class Result:
             self.known[key[0]] = self.known.get(key[0], 0) + 1
             self.known_desc[key[0]] = key[1]
             return
+        if isinstance(v.replay, dict) and self.shard is not None:
+            v.replay.setdefault("_rerun", {"tier": self.tier, "seed": self.seed, "shard": self.shard, "nshards": self.nshards, "tz": os.environ.get("TZ")})
         if len(self.violations) < limit:
             self.violations.append(v)
         self.count("violations_raised")
